@@ -26,13 +26,17 @@ SegLists2 ==      \* every AS fits two octets: both native kinds exist
   \cup {<<Seg(t, ns)>> : t \in SegTypes, ns \in SegNumbers}
   \cup {<<Seg("TYPE_AS_SEQUENCE", <<"65000", "65001">>), Seg("TYPE_AS_SET", <<"65002", "65003">>)>>,
         <<Seg("TYPE_AS_CONFED_SEQUENCE", <<"64512">>), Seg("TYPE_AS_SEQUENCE", <<"65000">>),
-          Seg("TYPE_AS_SEQUENCE", <<"65001">>)>>}
+          Seg("TYPE_AS_SEQUENCE", <<"65001">>)>>,
+        (* the same path split differently / with an empty segment in the middle: other octets, other value *)
+        <<Seg("TYPE_AS_SEQUENCE", <<"65000">>), Seg("TYPE_AS_SEQUENCE", <<"65001", "65002">>)>>,
+        <<Seg("TYPE_AS_SEQUENCE", <<"65000", "65001">>), Seg("TYPE_AS_SEQUENCE", <<"65002">>)>>,
+        <<Seg("TYPE_AS_SEQUENCE", <<"65000">>), Seg("TYPE_AS_SET", <<>>), Seg("TYPE_AS_SEQUENCE", <<"65001">>)>>}
 SegLists4 ==
   {<<Seg(t, ns)>> : t \in (IF Thorough THEN SegTypes ELSE {"TYPE_AS_SEQUENCE", "TYPE_AS_SET"}), ns \in SegNumbers4}
   \cup {<<Seg("TYPE_AS_SEQUENCE", <<"65000", "65536">>), Seg("TYPE_AS_SET", <<"4294967295">>)>>}
 
 CommLists == {<<>>, <<"0">>, <<"4294967295">>, <<"4259840100", "4294967041", "4294967042", "4294967043">>,
-              <<"4259840100", "4259840100">>}
+              <<"4259840100", "4259840100">>, <<"4294967043", "4259840100", "0">>}
 
 MpFamilies == {F_V4UC, F_V6UC, F_V4MC, F_V6MC, F_V4LB, F_V6LB, F_V4VPN, F_V6VPN, F_V4ENC, F_V6ENC, F_EVPN, F_VPLS,
                F_RTC, F_V4FS, F_V6FS, F_V4FSVPN, F_V6FSVPN, F_OPAQUE, F_V4SR, F_V6SR, F_V4MUP, F_V6MUP}
@@ -144,6 +148,29 @@ FlowComps6 ==
 FlowCompsL2 ==
   {<<FS_Mac("15", "00:11:22:33:44:55")>>, <<FS_Mac("16", "ff:ff:ff:ff:ff:ff")>>,
    <<FS_Comp("14", <<FS_Item("145", "2048")>>)>>}                                   \* ether type
+(* operand length / and / end / comparison bits of component items, one dimension at a time around
+   "dst-port = 80" *)
+NumTypes == {"3", "4", "5", "6", "7", "8", "10", "11"}          \* protocol, ports, icmp type/code, packet length, dscp
+BitTypes == {"9", "12"}                                         \* tcp flags, fragment
+One(t, items) == <<FS_Comp(t, items)>>
+FlowOps ==
+  {One("5", <<FS_ItemL(TRUE, FALSE, l, 1, <<"80", 0>>)>>) : l \in 0..3}
+  \cup UNION {{One("5", <<FS_ItemL(TRUE, FALSE, l, 1, v)>>) : l \in FsLens(v)} : v \in FsVals}
+  \cup {One("5", <<FS_ItemL(TRUE, FALSE, l, c, <<"80", 0>>)>>) : l \in {0, 1}, c \in 0..7}
+  \cup {One(t, <<FS_ItemL(TRUE, FALSE, l, 1, <<"6", 0>>)>>) : t \in NumTypes, l \in (IF Thorough THEN 0..3 ELSE {0, 1})}
+  \cup {One("4", <<FS_ItemL(FALSE, FALSE, l1, 3, <<"80", 0>>), FS_ItemL(TRUE, TRUE, l2, 5, <<"8080", 1>>)>>) : l1 \in {0, 1, 3}, l2 \in {1, 2}}
+  \cup {One("10", <<FS_ItemL(FALSE, FALSE, 1, 1, <<"40", 0>>), FS_ItemL(FALSE, FALSE, 0, 1, <<"41", 0>>), FS_ItemL(TRUE, FALSE, 2, 1, <<"1500", 1>>)>>)}
+  \cup {One(t, <<FS_ItemL(TRUE, FALSE, l, c, <<"2", 0>>)>>) : t \in BitTypes, l \in 0..3, c \in 0..3}
+  \cup {One("9", <<FS_ItemL(FALSE, FALSE, 1, 1, <<"2", 0>>), FS_ItemL(TRUE, TRUE, 0, 2, <<"16", 0>>)>>)}
+  \cup {<<FS_Prefix("1", "10.1.2.0", "24", "0"), FS_Comp("3", <<FS_ItemL(TRUE, FALSE, 1, 1, <<"6", 0>>)>>),
+           FS_Comp("5", <<FS_ItemL(TRUE, FALSE, 2, 1, <<"443", 1>>)>>), FS_Comp("9", <<FS_ItemL(TRUE, FALSE, 1, 1, <<"18", 0>>)>>)>>}
+FlowOps6 ==
+  {One("13", <<FS_ItemL(TRUE, FALSE, l, 1, <<"1048575", 2>>)>>) : l \in {2, 3}}
+  \cup {One("5", <<FS_ItemL(TRUE, FALSE, l, 1, <<"80", 0>>)>>) : l \in 0..3}
+  \cup {<<FS_Prefix("1", "2001:db8:1::", "64", "0"), FS_Comp("3", <<FS_ItemL(TRUE, FALSE, 1, 1, <<"58", 0>>)>>)>>}
+FlowOpsL2 ==
+  {One("14", <<FS_ItemL(TRUE, FALSE, l, 1, <<"2048", 1>>)>>) : l \in {1, 2, 3}}
+  \cup {<<FS_Comp("14", <<FS_ItemL(TRUE, FALSE, 2, 1, <<"2048", 1>>)>>), FS_Mac("15", "00:11:22:33:44:55")>>}    \* rules in type order
 MupTlvSeqs == {<<>>, <<MT_Session("1", "9")>>, <<MT_Interwork("10.0.0.9")>>, <<MT_Source("2001:db8::9")>>,
                <<MT_Unknown("200", B3)>>, <<MT_Source("10.0.0.9"), MT_Session("4294967295", "63")>>}
 
@@ -177,6 +204,15 @@ SweepNlri ==
   \cup {N(F_RTC, N_Rtc(as, rt)) : as \in {"0", "65000", "4294967295"}, rt \in RTPool}
   \cup {N(F_RTC, N_RtcDefault(as)) : as \in {"0", "65000"}}
   \cup {N(F_V4FS, N_Flow(r)) : r \in FlowComps} \cup {N(F_V6FS, N_Flow(r)) : r \in FlowComps6}
+  \cup {N(F_V4FS, N_Flow(r)) : r \in FlowOps} \cup {N(F_V6FS, N_Flow(r)) : r \in FlowOps6}
+  \cup {N(F_V4FSVPN, N_FlowVpn(RDBase, r)) : r \in FlowOps}
+  \cup {N(F_V6FSVPN, N_FlowVpn(RDBase, r)) : r \in FlowOps6}
+  \cup {N(F_L2FSVPN, N_FlowVpn(RDBase, r)) : r \in FlowOpsL2}
+  (* prefixes whose host bits are set (kept by the VPN / labelled / EVPN prefix types) *)
+  \cup {N(F_V4VPN, N_Vpn(<<"16">>, RDBase, p[1], p[2])) : p \in {<<"10.1.255.3", "20">>, <<"10.1.2.3", "24">>, <<"255.255.255.255", "1">>}}
+  \cup {N(F_V6VPN, N_Vpn(<<"16">>, RDBase, "2001:db8:1::ffff", "60"))}
+  \cup {N(F_V4LB, N_Labeled(<<"16">>, "10.1.255.3", "20"))}
+  \cup {N(F_EVPN, N_EvpnPfx(RDBase, ESIBase, "0", "10.1.255.3", "20", "10.0.0.1", "0"))}
   \cup {N(F_V4FSVPN, N_FlowVpn(rd, r)) : rd \in {RDBase, RDIP("10.0.0.1", "2")}, r \in FlowComps}
   \cup {N(F_V6FSVPN, N_FlowVpn(RDBase, r)) : r \in FlowComps6}
   \cup {N(F_L2FSVPN, N_FlowVpn(RDBase, r)) : r \in FlowCompsL2}
@@ -224,7 +260,8 @@ ExampleNames ==
    "attr:aspath-parsed", "attr:extcomm-parsed-all",
    "nlri:ls-node", "nlri:ls-link", "nlri:ls-prefix4", "nlri:ls-prefix6", "nlri:ls-srv6sid",
    "nlri:evpn-macadv-parsed", "nlri:evpn-ipmsi-parsed", "nlri:vpls-parsed", "nlri:rtc-default-parsed",
-   "nlri:flowspec-parsed", "nlri:mup-t1st-parsed", "nlri:srpolicy-parsed", "nlri:labeled-withdraw",
+   "nlri:flowspec-parsed", "nlri:flowspec-wide-parsed", "nlri:flowspec6-wide-parsed", "nlri:prefix-hostbits-parsed",
+   "nlri:vpn-hostbits-parsed", "nlri:labeled-two-labels-parsed", "nlri:mup-t1st-parsed", "nlri:srpolicy-parsed", "nlri:labeled-withdraw",
    "cap:gr-parsed", "cap:llgr-parsed", "cap:extnh-parsed", "cap:softver-parsed", "cap:fqdn-parsed"}
 SweepEx == {Ex(n) : n \in ExampleNames}
 
@@ -285,7 +322,16 @@ RandNlri(x) ==
     [] t = "vpn" -> LET p == RandomElement(V4Prefixes) IN N(F_V4VPN, N_Vpn(RandomElement(LabelStacks), RandomElement(RDPool), p[1], p[2]))
     [] t = "labeled" -> LET p == RandomElement(V6Prefixes) IN N(F_V6LB, N_Labeled(RandomElement(LabelStacks), p[1], p[2]))
     [] t = "rtc" -> N(F_RTC, N_Rtc(RandomElement(AS4), RandomElement(RTPool)))
-    [] t = "flow" -> N(F_V4FSVPN, N_FlowVpn(RandomElement(RDPool), RandomElement(FlowComps)))
+    [] t = "flow" -> LET v == RandomElement(FsVals)
+                         w == RandomElement(FsVals)
+                         ty == RandomElement(NumTypes \cup BitTypes)
+                         items == IF RandomElement(BOOLEAN)
+                                  THEN <<FS_ItemL(TRUE, FALSE, RandomElement(FsLens(v)), RandomElement(0..7), v)>>
+                                  ELSE <<FS_ItemL(FALSE, RandomElement(BOOLEAN), RandomElement(FsLens(v)), RandomElement(0..7), v),
+                                         FS_ItemL(TRUE, RandomElement(BOOLEAN), RandomElement(FsLens(w)), RandomElement(0..7), w)>>
+                     IN IF RandomElement(BOOLEAN)
+                        THEN N(F_V4FSVPN, N_FlowVpn(RandomElement(RDPool), <<FS_Comp(ty, items)>>))
+                        ELSE N(RandomElement({F_V4FS, F_V6FS}), N_Flow(<<FS_Comp(ty, items)>>))
     [] OTHER -> N(F_V4MUP, N_MupT1(RandomElement(RDPool), "10.1.2.3/32", RandomElement(U32), RandomElement({"0", "9", "63"}), "32", "10.0.0.2",
                                    "0", "", RandomElement(MupTlvSeqs)))
 RandBeh(step) ==
